@@ -230,7 +230,7 @@ Proof.
             [apply Hinf|apply Hhash]; assumption.
       + (* TSymbol *)
         destruct (list_eqb (t_str (tok_at q 0)) [45] || list_eqb (t_str (tok_at q 0)) [43]);
-          [|apply Hk; [reflexivity|exact Hq|exact Hok1]].
+          [|destruct (list_eqb (t_str (tok_at q 0)) str_nil); apply Hk; [reflexivity|exact Hq|exact Hok1|reflexivity|exact Hq|exact Hok1]].
         apply need_resume; [exact Hq|]. intros Hlen.
         assert (q_toks (q_tail q) <> []) as Hne1 by (eapply len_ne; exact Hlen).
         rewrite (tok_at_qapp0 (q_tail q) Hne1), (qapp_tail (q_tail q) Hne1).
